@@ -12,12 +12,13 @@ def main():
              Cond(M, "check_append_later", "appending an epoch after epochs were handed out is accepted iff the extended schedule is valid", 300),
              Cond(M, "check_stan", "stan_epochs (warmup <= 3000): valid schedule, fast / doubling-slow / fast pattern, warmup durations sum to the request, one posterior epoch", 300),
              Cond(M, "check_stan_rejects", "stan_epochs raises ValueError for a warmup shorter than 20 or than init + term + base", 120)]
+    conds.append(Cond("vf.ch.h_builder", "check_chunk", "EngineBuilder.build: the JIT chunk length handed to the engine divides every epoch duration (three symbolic durations <= 24; math.gcd re-bound to a pure-Python Euclid)", 300))
     if chk.tier == "thorough":
         conds += [Cond(M, "check_iff4", "EpochManager accept-iff-valid for schedules of exactly 4 epochs", 1500),
                   Cond(M, "check_stan_wide", "stan_epochs for warmup <= 100000", 900)]
     run_conditions(chk, conds)
-    chk.functions += ["liesel.goose.epoch.EpochManager.__init__/append/next/has_more", "liesel.goose.epoch.EpochConfig.to_state", "liesel.goose.epoch.EpochType.is_warmup", "liesel.goose.warmup.stan_epochs"]
+    chk.functions += ["liesel.goose.epoch.EpochManager.__init__/append/next/has_more", "liesel.goose.epoch.EpochConfig.to_state", "liesel.goose.epoch.EpochType.is_warmup", "liesel.goose.warmup.stan_epochs", "liesel.goose.builder.EngineBuilder.build (chunk length)"]
     chk.bounds += ["schedules of <= 3 epochs (thorough: 4) with symbolic type in 0..4, unbounded symbolic duration and thinning", "stan_epochs: warmup <= 3000 (thorough 1e5), all seven arguments symbolic, posterior thinning 1..6 with posterior = thinning * q"]
     chk.assume("admissible stan_epochs arguments: init, term, base >= 1; warmup >= max(20, init+term+base); 1 <= thinning_warmup <= min(init, term, base); thinning_posterior divides posterior; base = 0 (non-terminating loop) excluded",
-               "the builder's JIT chunk length is checked with the engine harness (C07/C08 evidence), not here")
+               "builder chunk: Engine re-bound to a recorder, jax in the builder re-bound to the key-term stand-in, math.gcd re-bound to a pure-Python Euclid (contract of math.gcd)")
     return chk.finish(technique=TECH)
